@@ -396,7 +396,16 @@ class Variable:
         if self._dtype.name == 'bool' and dt.name in _INTS + _FLOATS:
             return self._new(_map1(lambda b: R.lift(1) if bool(b) else R.lift(0), a), dtype=dt, unit=self._unit)
         if dt.name in _INTS and self._dtype.name in _FLOATS:
-            raise C.Unsupported('float->int conversion')
+            # numpy/scipp truncate towards zero: an integer k with |k - x| < 1 (and k = x when x is an integer constant)
+            def trunc(x):
+                x = R.lift(x)
+                if x.is_const():
+                    import math
+                    return R.lift(math.trunc(x.const_value()))
+                k = R(T.fresh('trunc', is_int=True))
+                C.CTX.definitions.append((k - x < 1) & (x - k < 1))
+                return k
+            return self._new(_map1(trunc, a), dtype=dt, unit=self._unit)
         rnd = self._rnd
         if dt.name in _FLOATS:
             rnd = _rnd_add(rnd, dt)
@@ -1048,12 +1057,15 @@ def power(a: Variable, n):
         if not isinstance(nv, R) or not nv.is_const():
             raise C.Unsupported('symbolic exponent')
         nv = nv.const_value()
-        if a._dtype.name in _INTS and ndt.name in _INTS and a._dtype != ndt:
-            raise DTypeError('pow int32/int64 mix')
+        if a._dtype.name in _INTS and ndt.name in _INTS and (a._dtype != ndt or a._dtype.name == 'int32'):
+            # measured (scipp 25.4): pow supports (int64, int64) only among integer pairs
+            raise DTypeError(f"'pow' does not support dtypes '{a._dtype.name}', '{ndt.name}'")
         # scipp 25.4 (measured): a float base keeps its dtype whatever the exponent's dtype; int ** float -> float64
         dt = (a._dtype if a._dtype.name in _FLOATS else _promote(a._dtype, ndt, 'pow')) if a._bins is None else None
     else:
         nv = Fraction(n)
+        if a._dtype.name == 'int32' and isinstance(n, int) and a._bins is None:
+            raise DTypeError("'pow' does not support dtypes 'int32', 'int64'")
         dt = a._dtype if isinstance(n, int) or a._dtype.name in _FLOATS else DType.float64
     if a._bins is not None:
         from .bins import binned_unary
